@@ -94,7 +94,7 @@ pub fn pad(v: f32) -> f32 {
 /// extracting the css tag of inside of a shape fragment
 pub mod parser {
 
-    use pom::parser::{is_a, list, none_of, one_of, sym, tag, Parser};
+    use pom::parser::{end, is_a, list, none_of, one_of, sym, tag, Parser};
     use std::iter::FromIterator;
 
     /// Parses a list with the defined separator, but will fail early when one of the
@@ -152,8 +152,9 @@ pub mod parser {
         ch == '_'
     }
 
+    /// a line terminator: `\r\n`, `\n` or `\r`
     pub fn new_line<'a>() -> Parser<'a, char, ()> {
-        one_of("\r\n").discard()
+        (sym('\r') * sym('\n')).discard() | one_of("\r\n").discard()
     }
 
     /// any whitespace character
@@ -213,6 +214,7 @@ pub mod parser {
     /// a = {fill: red}
     fn class_and_style<'a>() -> Parser<'a, char, (String, String)> {
         (-space() * ident() - space() - sym('=') - space()) + css_styles()
+            - space()
     }
 
     /// Parses:
@@ -221,7 +223,8 @@ pub mod parser {
     ///  b = {stroke: blue}
     ///
     fn css_legend<'a>() -> Parser<'a, char, Vec<(String, String)>> {
-        (space() - sym('#') - space() - tag("Legend:") - space() - new_line())
+        (space() - sym('#') - space() - tag("Legend:") - space()
+            - (new_line() | end()))
             * css_style_list()
     }
 
